@@ -300,6 +300,9 @@ inductive Op
   or offline): `CompleteState.queue` forgets the local path (`reset_local_vars`, state.py:305-310) whether or not the
   file is still there; every other state keeps it -/
   | requeue (id : Nat)
+  /-- `TransferManager.abort(transfer)` on a download that ended early (INCOMPLETE, or queued again and waiting): the
+  partial file is deleted and the path forgotten (`_remove_local_file`, state.py:32-44) -/
+  | abort (id : Nat)
 deriving Repr
 
 inductive Outcome
@@ -356,6 +359,13 @@ def step (strategies : List Strategy) (s : Sys) : Op → Sys × Outcome
           ({ fs := s.fs.filter (fun e => !(e.dir == a.dir && e.name == a.name)),
              dls := setStatus id .complete .gone s.dls }, .removed)
         else (s, .noop)
+      else (s, .noop)
+    | none => (s, .noop)
+  | .abort id =>
+    match s.find id with
+    | some a =>
+      if a.status = .broken then
+        ({ fs := s.fs.filter (fun e => !(e.dir == a.dir && e.name == a.name)), dls := s.drop id }, .removed)
       else (s, .noop)
     | none => (s, .noop)
   | .requeue id =>
